@@ -3,9 +3,10 @@ import itertools
 
 from core import rng, run_cases
 
-MODULES = ["Props.C10"]
+MODULES = ["Props.C10", "Props.C10Tie"]
 THEOREMS = ["Props.C10.c10_format_parse", "Props.C10.c10_key_chrono", "Props.C10.c10_fresh_dir", "Props.C10.c10_history",
-            "Props.C10.c10_last", "Props.C10.c10_first"]
+            "Props.C10.c10_last", "Props.C10.c10_first",
+            "Props.C10Tie.run_dir_format", "Props.C10Tie.format_example"]
 METHODS = ["collect_paths", "fast_forward_paths", "next_paths", "collect_by_line", "fast_forward_by_line", "next_by_line"]
 
 
